@@ -368,22 +368,44 @@ async fn node(kp: Keypair) -> litep2p::Litep2p {
     litep2p::Litep2p::new(cfg).expect("litep2p node")
 }
 
-/// dialer A dials node B's address with `/p2p/<expected>`; returns (outcome, peer name) or None if inconclusive
-async fn tcp_case(dialed: &str) -> Option<(String, String, String)> {
+/// peer id of `kp` in the given multihash form: "inline" (identity code, canonical for Ed25519)
+/// or "sha256" (SHA-256 multihash of the protobuf-encoded key: a valid but different peer id)
+fn peer_id_in_form(kp: &Keypair, form: &str) -> litep2p::PeerId {
+    let canonical = litep2p::PeerId::from_public_key(&kp.public().into());
+    if form != "sha256" {
+        return canonical;
+    }
+    let enc = rogue::key_pb(&kp.public().to_bytes());
+    let mut bytes = vec![0x12, 0x20];
+    bytes.extend_from_slice(&sha256(&enc));
+    litep2p::PeerId::from_bytes(&bytes).expect("sha2-256 multihash is a valid peer id")
+}
+
+type TcpResult = ((String, String, String), Option<String>);
+
+/// dialer A dials node B's address with `/p2p/<expected>`, the expectation being the id of key
+/// `dialed` ("B": the listener's key, else another key) in multihash form `form`. The comparison
+/// is done by the real `negotiate_connection`. Returns the dialer's (outcome, peer name, detail)
+/// and, if it reported one, the peer the listener node saw; None if inconclusive.
+async fn tcp_case(dialed: &str, form: &str) -> Option<TcpResult> {
     use litep2p::Litep2pEvent;
     let (ka, kb, kc) = (Keypair::generate(), Keypair::generate(), Keypair::generate());
     let keys = Keys { a: ka.clone(), b: kb.clone(), r: kc.clone() };
     let mut a = node(ka).await;
     let mut b = node(kb.clone()).await;
     let addr = b.listen_addresses().next().cloned()?;
-    let expected = match dialed {
-        "B" => litep2p::PeerId::from_public_key(&kb.public().into()),
-        _ => litep2p::PeerId::from_public_key(&kc.public().into()),
-    };
+    let expected = peer_id_in_form(if dialed == "B" { &kb } else { &kc }, form);
     // strip a trailing /p2p/.. of the listen address, then add the expectation
     let base: multiaddr::Multiaddr = addr.iter().filter(|p| !matches!(p, multiaddr::Protocol::P2p(_))).collect();
     let target = base.with(multiaddr::Protocol::P2p(expected.into()));
-    tokio::spawn(async move { while b.next_event().await.is_some() {} });
+    let (ltx, mut lrx) = tokio::sync::mpsc::unbounded_channel::<Vec<u8>>();
+    tokio::spawn(async move {
+        while let Some(ev) = b.next_event().await {
+            if let Litep2pEvent::ConnectionEstablished { peer, .. } = ev {
+                let _ = ltx.send(peer.to_bytes());
+            }
+        }
+    });
     if a.dial_address(target).await.is_err() {
         return None;
     }
@@ -394,15 +416,25 @@ async fn tcp_case(dialed: &str) -> Option<(String, String, String)> {
         match tokio::time::timeout(wait, a.next_event()).await {
             Ok(Some(Litep2pEvent::ConnectionEstablished { peer, .. })) => {
                 // an established connection always wins over an earlier failure report
-                return Some(("ok".into(), name_of(&peer.to_bytes(), &keys).to_string(), String::new()));
+                result = Some(("ok".into(), name_of(&peer.to_bytes(), &keys).to_string(), String::new()));
+                break;
             }
             Ok(Some(Litep2pEvent::DialFailure { error, .. })) => result = Some(("err".into(), String::new(), format!("{error:?}").chars().take(80).collect())),
             Ok(Some(Litep2pEvent::ListDialFailures { errors })) => result = Some(("err".into(), String::new(), format!("{errors:?}").chars().take(80).collect())),
             Ok(Some(_)) => {}
-            Ok(None) => return result,
-            Err(_) => return result, // quiet period after a failure over, or nothing at all within 30 s (inconclusive)
+            Ok(None) => break,
+            Err(_) => break, // quiet period after a failure over, or nothing at all within 30 s (inconclusive)
         }
     }
+    let result = result?;
+    // the listener side runs the same negotiate_connection without an expectation
+    let mut listener = None;
+    if result.0 == "ok" {
+        if let Ok(Some(p)) = tokio::time::timeout(Duration::from_secs(10), lrx.recv()).await {
+            listener = Some(name_of(&p, &keys).to_string());
+        }
+    }
+    Some((result, listener))
 }
 
 fn main() {
@@ -454,15 +486,16 @@ fn main() {
     if !tcp.is_empty() {
         for b in &tcp {
             let dialed = b["sc"]["dialed"].as_str().unwrap().to_string();
+            let form = b["sc"]["dialedForm"].as_str().unwrap().to_string();
             for _ in 0..reps {
                 let mut got = None;
                 for _attempt in 0..3 {
                     // a fresh runtime per case; a panic of the code under test (e.g. a debug assertion in the
                     // connection manager) is an outcome, not a harness crash
                     let rt = tokio::runtime::Builder::new_multi_thread().worker_threads(2).enable_all().build().unwrap();
-                    got = match catch(|| rt.block_on(tcp_case(&dialed))) {
+                    got = match catch(|| rt.block_on(tcp_case(&dialed, &form))) {
                         Ok(g) => g,
-                        Err(p) => Some(("panic".to_string(), String::new(), p.chars().take(80).collect())),
+                        Err(p) => Some((("panic".to_string(), String::new(), p.chars().take(80).collect()), None)),
                     };
                     rt.shutdown_background();
                     if got.is_some() {
@@ -470,11 +503,16 @@ fn main() {
                     }
                     tcp_inconclusive += 1;
                 }
-                let Some((outcome, peer, kind)) = got else { continue };
+                let Some(((outcome, peer, kind), listener)) = got else { continue };
                 tcp_runs += 1;
-                *outcomes.entry(format!("{outcome}_tcp_{dialed}")).or_default() += 1;
+                *outcomes.entry(format!("{outcome}_tcp_{dialed}_{form}")).or_default() += 1;
                 lines.push(json!({"e": "hs", "sc": b["sc"], "conc": {"via": "tcp"}, "role": "dialer", "outcome": outcome, "peer": peer,
                     "kind": kind, "exp": b["exp"]["dialer"]}).to_string());
+                if let Some(lp) = listener {
+                    *outcomes.entry("ok_tcp_listener".to_string()).or_default() += 1;
+                    lines.push(json!({"e": "hs", "sc": b["sc"], "conc": {"via": "tcp"}, "role": "listener", "outcome": "ok", "peer": lp,
+                        "kind": "", "exp": b["exp"]["listener"]}).to_string());
+                }
             }
         }
     }
